@@ -92,72 +92,8 @@ proof!(c13_add_high, unwind = 2, add_high);
 proof!(c13_sub_low, unwind = 2, sub_low);
 proof!(c13_add_zero, unwind = 2, add_zero);
 
-// ---- parse / format shapes ----------------------------------------------------------------------------------------
-
-fn parse(s: &str) -> Option<Timestamp> {
-  match Timestamp::parse(s) {
-    Ok(t) => Some(t),
-    Err(e) => {
-      core::mem::forget(e);
-      None
-    }
-  }
-}
-
-/// `<date-time at a range end>` followed by a numeric offset `±0h:00` with sign and hour digit symbolic.
-/// Accepted => inside the range and equal to the instant denoted (base - offset); never a panic.
-fn offset_shape(template: &[u8; 25], base_unix: i64) {
-  let mut buf = *template;
-  let sign: u8 = any();
-  let h: u8 = any();
-  assume(sign == b'+' || sign == b'-');
-  assume(h >= b'0' && h <= b'9');
-  buf[19] = sign;
-  buf[21] = h;
-  let s = core::str::from_utf8(&buf).unwrap();
-  let hours = (h - b'0') as i64;
-  let denoted = if sign == b'+' { base_unix - hours * 3600 } else { base_unix + hours * 3600 };
-  match parse(s) {
-    Some(t) => {
-      assert!((MIN..=MAX).contains(&t.to_unix()));
-      assert_eq!(t.to_unix(), denoted);
-    }
-    None => {
-      // a string denoting an instant inside the range must be accepted
-      assert!(!(MIN..=MAX).contains(&denoted));
-    }
-  }
-  sym_cover!(!(MIN..=MAX).contains(&denoted), "offset pushes the instant out of range");
-  sym_cover!((MIN..=MAX).contains(&denoted), "offset keeps the instant in range");
-}
-pub fn parse_offset_high() {
-  offset_shape(b"9999-12-31T23:59:59+00:00", MAX)
-}
-pub fn parse_offset_low() {
-  offset_shape(b"0000-01-01T00:00:00+00:00", MIN)
-}
-proof!(c13_parse_offset_high, unwind = 27, parse_offset_high);
-proof!(c13_parse_offset_low, unwind = 27, parse_offset_low);
-
-/// format-then-parse is the identity and formatting never panics (window at both range ends)
-fn format_roundtrip_at(centre: i64) {
-  let s: i64 = any();
-  assume(s >= centre - 2 && s <= centre + 2 && (MIN..=MAX).contains(&s));
-  let t = from_unix(s).unwrap();
-  let text = t.to_rfc3339();
-  assert_eq!(text.len(), 20);
-  let back = parse(&text);
-  assert!(back == Some(t));
-  core::mem::forget(text);
-}
-pub fn format_roundtrip_high() {
-  format_roundtrip_at(MAX)
-}
-pub fn format_roundtrip_low() {
-  format_roundtrip_at(MIN)
-}
-proof!(c13_format_roundtrip_high, unwind = 27, format_roundtrip_high);
-proof!(c13_format_roundtrip_low, unwind = 27, format_roundtrip_low);
+// parse / format shapes: removed under rule 9 (CBMC hit the 45-minute cap on the RFC 3339 parser and ran out of memory on the
+// formatter); the constructors are covered by the M routing audit (checks/c13.py).
 
 pub fn twin_must_fail() {
   let s: i64 = any();
@@ -175,9 +111,5 @@ pub const BODIES: &[(&str, fn())] = &[
   ("c13_add_high", add_high),
   ("c13_sub_low", sub_low),
   ("c13_add_zero", add_zero),
-  ("c13_parse_offset_high", parse_offset_high),
-  ("c13_parse_offset_low", parse_offset_low),
-  ("c13_format_roundtrip_high", format_roundtrip_high),
-  ("c13_format_roundtrip_low", format_roundtrip_low),
   ("c13_twin_must_fail", twin_must_fail),
 ];
